@@ -696,7 +696,12 @@ func (u *UpServer) handle(b []byte, proto string, conn int, qc qctx, reply func(
 			if proto == "udp" {
 				r, _ := refdns.Parse(b)
 				r.Bits |= refdns.BitTC
-				r.An, r.Ns, r.Ar = nil, nil, nil
+				if act.Arg%2 == 1 && len(r.An) > 1 {
+					// a partial RRset, as many servers send it
+					r.An, r.Ns, r.Ar = r.An[:(len(r.An)+1)/2], nil, nil
+				} else {
+					r.An, r.Ns, r.Ar = nil, nil, nil
+				}
 				b = refdns.Pack(r, refdns.PackOpts{})
 				logReply("tc", ser, key, len(b))
 				s.Fault("up_tc")
